@@ -943,7 +943,7 @@ def inputsOf (st : BuildState) (bi : Nat) : Except BuildErr (List Wire) :=
     | .ok s =>
       match typedOp s r.input.1 isInputOp with
       | .error e => .error e
-      | .ok (.input ts) => .ok ((List.range ts.length).map fun k => (r.input.1, (k : Int)))
+      | .ok (.input ts) => .ok ((List.range ts.length).map fun (k : Nat) => (r.input.1, (k : Int)))
       | .ok _ => .error .assertionError
 
 /-- `untrack_wire(index)` -/
